@@ -151,6 +151,9 @@ func c02Faults(d *vCtx) error {
 		}
 		var details []map[string]any
 		for ji := si; ji < len(jobs); ji += n {
+			if ji <= vResumeAfter() {
+				continue
+			}
 			j := jobs[ji]
 			cc := *bases[j.base]
 			cc.ID = ji
@@ -167,6 +170,10 @@ func c02Faults(d *vCtx) error {
 			os.RemoveAll(e2eWorkDir(base, cc.ID))
 			d.add("runs", 1)
 			d.add("kind_"+j.faults[0].Kind, 1)
+			if e2eTainted {
+				vRequestRestart(d, ji)
+				break
+			}
 		}
 		d.set("jobs_total", len(jobs))
 		if err := tr.Close(); err != nil {
